@@ -118,6 +118,11 @@ class LogModel(Model):
 
     def begin_round(self, time, sim_round, step):
         self.step_counter += 1
+        # where the scheduler says the run is, as agent / model code would read it inside a callback
+        sch = self.scheduler
+        if not hasattr(self, "positions"):
+            self.positions = []
+        self.positions.append((time, sim_round, step, getattr(sch, "current_time", None), getattr(sch, "current_round", None), getattr(sch, "current_step", None), getattr(sch, "progress", None)))
         self.log.append(("begin", time, sim_round, step, self.step_counter))
         self._ops("begin")
         self._sends("begin")
@@ -139,3 +144,14 @@ def new_model(start, stop, dt, name="abm", script=None, agents=None):
     if agents:
         m.configure_agents(copy.deepcopy(agents))
     return m
+
+
+def position_witness(model):
+    """The scheduler's own position (current_time / current_round / current_step / progress) as read inside begin_round must be the
+    step that is being executed, however the step was started (whole run, Model.run_step, bptk session)."""
+    stop = model.stoptime
+    for (time, r, s_, ct, cr, cs, pr) in getattr(model, "positions", []):
+        exp_p = (time / stop) if stop != 0 else 1.0
+        if ct is None or abs(ct - time) > 1e-9 or cr != r or cs != s_ or pr is None or abs(pr - exp_p) > 1e-9:
+            return dict(kind="scheduler-position", step=(r, s_, time), current_time=ct, current_round=cr, current_step=cs, progress=pr, expected_progress=exp_p)
+    return None
